@@ -871,6 +871,110 @@ func count(l []string, s string) int {
 
 // ---------------------------------------------------------------- C14 (net): persistent restart failure ends in a close-with-error
 
+// ---------------------------------------------------------------- C08 (manager level)
+
+// checkC08: the responder's data limit at manager level. (a) While the responder is paused at its limit the limited
+// total (queued for a pull, received for a push) does not grow. (b) An accepting validation update issued while so
+// paused resumes the channel exactly when its new limit is zero or exceeds the progress made so far; otherwise the
+// channel stays paused (until a later update).
+func (nr *netRun) checkC08(x *xfer) {
+	r := nr.r
+	b := nr.B
+	lim := func(s Snap) uint64 {
+		if s.IsPull {
+			return s.Queued
+		}
+		return s.Received
+	}
+	for life := 0; life <= b.life; life++ {
+		evs := lifeEvents(b, x.chid, life)
+		// (a) no progress while paused at the limit
+		pausedAt, pausedLB, prevStep := -1, -1, -1
+		var at uint64
+		for _, e := range evs {
+			ps := prevStep
+			prevStep = e.Step
+			switch e.Code {
+			case datatransfer.DataLimitExceeded:
+				// (the pause was applied somewhere between the previous announcement and this one)
+				pausedAt, pausedLB, at = e.Step, ps, lim(e.Snap)
+				r.Probe("limit-pause-announced")
+			case datatransfer.ResumeResponder, datatransfer.SetDataLimit:
+				// a new limit / a resume ends the interval (SetDataLimit precedes the resume decision)
+				if e.Code == datatransfer.ResumeResponder {
+					pausedAt = -1
+				}
+			default:
+				if pausedAt >= 0 && e.Snap.RPaused && lim(e.Snap) > at && !isTerminal(e.Snap.Status) {
+					// F14: a restart request validated *before* the limit was reached (decision: not paused) and carried out after it
+					cause := ""
+					for _, vc := range b.ValCalls {
+						if vc.ChID == x.chid && vc.Kind == "restart" && vc.Life == life && vc.Step < pausedAt {
+							for _, tc := range b.TpCalls {
+								if tc.Kind == "open" && tc.Restart && tc.ChID == x.chid && tc.Life == life && tc.Done > pausedLB && tc.Step < e.Step {
+									cause = "|restart-validated-before-the-limit-was-reached-and-carried-out-after"
+								}
+							}
+						}
+					}
+					r.Failf("C08", "progress-while-paused-at-limit", datatransfer.Events[e.Code]+cause, "responder channel #%d paused at its data limit with %d limited bytes (step %d) shows %d after %s at step %d although nothing resumed it", x.idx, at, pausedAt, lim(e.Snap), datatransfer.Events[e.Code], e.Step)
+					pausedAt = -1
+				}
+			}
+		}
+	}
+	// (b) the resume rule
+	var ups []*appOp
+	for _, op := range nr.ops {
+		if op.X == x && op.Node == b && op.Kind == "UpdateValidationStatus" {
+			ups = append(ups, op)
+		}
+	}
+	for i, op := range ups {
+		if !op.Call.Returned || op.Call.Err != nil || !op.Res.Accepted || op.Life != b.life || !op.PreOK {
+			continue
+		}
+		pre := op.Pre
+		if !pre.RPaused || pre.IPaused || pre.Status != datatransfer.Ongoing {
+			continue // judged only for a responder that is transferring and paused (its limit, or the validator's pause)
+		}
+		progress := lim(pre)
+		wantResume := op.Res.DataLimit == 0 || op.Res.DataLimit > progress
+		// what became of the pause: the state queried right after the call returned (the query flushes the channel's
+		// event queue, so this does not depend on when subscribers hear of it)
+		if !op.PostOK {
+			continue
+		}
+		until := 1 << 60
+		if i+1 < len(ups) {
+			until = ups[i+1].Call.S0
+		}
+		resumed, ended := !op.Post.RPaused, false
+		if isTerminal(op.Post.Status) || isCleanup(op.Post.Status) || op.Post.Status.InFinalization() {
+			ended = true
+		}
+		if op.Post.RPaused && lim(op.Post) > progress {
+			ended = true // resumed and already at the next limit (or a restart moved data): not this rule's business
+		}
+		// the responder's own application may resume the channel explicitly (ResumeDataTransferChannel): not the update's doing
+		for _, o2 := range nr.ops {
+			if o2.X == x && o2.Node == b && o2.Kind == "Resume" && o2.Call.S1 >= op.Call.S0 && o2.Call.S0 < until {
+				ended = true
+			}
+		}
+		if ended {
+			continue
+		}
+		r.Probe(fmt.Sprintf("revalidation-while-paused:resume=%v", wantResume))
+		if wantResume && !resumed {
+			r.Failf("C08", "update-above-progress-did-not-resume", fmt.Sprintf("limit0=%v", op.Res.DataLimit == 0), "an accepting update of channel #%d with new limit %d (progress %d) did not resume the paused responder", x.idx, op.Res.DataLimit, progress)
+		}
+		if !wantResume && resumed {
+			r.Failf("C08", "update-not-above-progress-resumed", "", "an accepting update of channel #%d whose new limit %d does not exceed the progress made so far (%d) resumed the responder", x.idx, op.Res.DataLimit, progress)
+		}
+	}
+}
+
 func (nr *netRun) checkC14() {
 	r := nr.r
 	if !nr.cfg.sendFail || nr.sendFailAt == 0 {
